@@ -70,6 +70,7 @@
 /* what the ghost pair (g_k, g_b) speaks about (free ghost g_eq, see contracts.h) */
 #define WSF_EQ_CTL 1 /* payload handed to ws_msg_init_control / status code of ws_close */
 #define WSF_EQ_RX 2  /* payload of the received frame */
+#define WSF_EQ_TX 3  /* concatenation of the scatter/gather vector to send */
 
 /* well-formed aio wait queue model (as in tcpframe) */
 #define WSF_Q_OK(q) ((((q).n == 0) == ((q).head == NULL)) && (((q).n >= 2) == ((q).next != NULL)) && ((q).n < 2 || (q).next != (q).head))
